@@ -7,6 +7,7 @@ package httpprot
 import (
 	"encoding/json"
 	"io"
+	"math"
 	"net/http"
 	"testing"
 
@@ -73,6 +74,11 @@ func c07fGen(r *verifh.Rand, i int) interface{} {
 		}
 	default:
 		in.Limit = int64(lim)
+	}
+	// the int64 boundary: a limit of MaxInt64 / MaxInt64-1 with ordinary body sizes (any `limit + 1` would wrap)
+	if r.Bool(1, 12) {
+		in.Limit = math.MaxInt64 - int64(r.PickInt(0, 0, 1))
+		lim = r.PickInt(1, 100, 5000)
 	}
 	size := func() int {
 		switch r.Intn(9) {
